@@ -90,6 +90,14 @@ def run(ctx):
         oracle(ctx, {"inputs": ins, "rows": [{"reaction": r.get("reaction"), "input_reaction": r.get("input_reaction"), "solved": bool(r.get("solved")),
                                             "solved_by": r.get("solved_by") if isinstance(r.get("solved_by"), str) else None} for r in rows],
                      "tables": {"pp": []}}, config={"n_jobs": nj, "batch_size": k, "threads": threads})
+    # the configuration matrix (cache, worker threads, dict rows, Dataset sources, re-used object, fed-back rows, CLI)
+    import matrix
+    for run in matrix.runs(ctx):
+        ctx.count("matrix", run["config"][:40])
+        if run["error"]:
+            ctx.fail("rebalance-raised", {"inputs": run["given"], "config": {"matrix": run["config"]}}, {"error": run["error"]})
+            continue
+        oracle(ctx, matrix.as_batch(run), config={"matrix": run["config"]})
     bs = bs + sb
     for b in (wb + bs)[:2]:
         if b["rows"]:
@@ -99,6 +107,13 @@ def run(ctx):
 
 def replay(ctx, rep):
     case = rep.get("failing_input", {})
+    if isinstance(case, dict) and "config" in case and "matrix" in case["config"]:
+        import matrix
+        n = len(ctx.failures)
+        for run in matrix.compute():
+            if run["config"] == case["config"]["matrix"]:
+                oracle(ctx, matrix.as_batch(run), config=case["config"])
+        return 1 if len(ctx.failures) > n else 0
     if isinstance(case, dict) and "config" in case:
         import joblib
         from synrbl import Balancer
